@@ -409,39 +409,68 @@ def run(spec, tier='quick'):
         w_to = int(_pick(s.get('wall_timeout_s'), tier, 600))
         mod = s.get('module', '')
         full = [(mod + '::' + h) if mod else h for h in harnesses]
-        cmd = ['cargo', 'kani', '-j', str(jobs), '--output-format', 'terse', '-Z', 'unstable-options',
-               '--harness-timeout', '%ds' % h_to, '--output-into-files', '--exact']
-        for h in full:
-            cmd += ['--harness', h]
-        cmd += list(s.get('cargo_args', []))
-        res['cmd'] = 'CARGO_NET_OFFLINE=true ' + ' '.join(cmd) + '   # RLIMIT_AS %g GiB/process, wall %ds' % (mem_gb, w_to)
-        r = _Runner(cmd, work, mem_gb, w_to).run()
-        peak = r.peak_rss_kb
-        with open(os.path.join(scratch, 'kani.log'), 'w') as f:  # only survives with VERIF_KEEP_SCRATCH / --keep
-            f.write(r.out)
-
-        # 4. classify
         outdir = os.path.join(work, 'result_output_dir')
-        rows = []
-        started = set(re.findall(r'Checking harness (\S+?)\.\.\.', r.out))
-        for h, fq in zip(harnesses, full):
-            p = os.path.join(outdir, fq)
-            text = None
-            if os.path.exists(p):
-                with open(p, errors='replace') as f:
-                    text = f.read()
-            result, secs, failed, note = _parse_harness(text, h_to)
-            if result == 'no-result':
-                if r.timed_out:
-                    result, note = 'timeout', ('overall wall timeout of %ds hit %s' % (w_to, 'while it was running' if fq in started else 'before it was started'))
-                elif fq in started:
-                    result, note = 'crashed', 'started but left no result file'
-            row = {'name': h, 'result': result, 'seconds': secs}
-            if failed:
-                row['failed_checks'] = failed
-            if note:
-                row['note'] = note
-            rows.append(row)
+        rows_by = {}
+        started = set()
+        peak = 0
+        log = ''
+        timed_out = False
+        todo = list(zip(harnesses, full))
+        deadline = time.time() + w_to
+        # pass 0 = the run; pass 1 = ONE retry of harnesses that were lost without a verdict because the kani
+        # driver (or their cbmc) died under them, e.g. killed from outside - not of timeouts/fails/crash verdicts
+        for attempt in (0, 1):
+            left = int(deadline - time.time())
+            if not todo or left < 30:
+                break
+            cmd = ['cargo', 'kani', '-j', str(max(1, min(jobs, len(todo)))), '--output-format', 'terse', '-Z', 'unstable-options',
+                   '--harness-timeout', '%ds' % h_to, '--output-into-files', '--exact']
+            for _, fq in todo:
+                cmd += ['--harness', fq]
+            cmd += list(s.get('cargo_args', []))
+            if attempt == 0:
+                res['cmd'] = 'CARGO_NET_OFFLINE=true ' + ' '.join(cmd) + '   # RLIMIT_AS %g GiB/process, wall %ds' % (mem_gb, w_to)
+            r = _Runner(cmd, work, mem_gb, left).run()
+            peak = max(peak, r.peak_rss_kb)
+            log += r.out + '\n'
+            timed_out = r.timed_out
+            started |= set(re.findall(r'Checking harness (\S+?)\.\.\.', r.out))
+            lost = []
+            for h, fq in todo:
+                p = os.path.join(outdir, fq)
+                text = None
+                if os.path.exists(p):
+                    with open(p, errors='replace') as f:
+                        text = f.read()
+                    os.remove(p)
+                result, secs, failed, note = _parse_harness(text, h_to)
+                if result == 'no-result':
+                    if r.timed_out:
+                        result, note = 'timeout', ('overall wall timeout of %ds hit %s' % (w_to, 'while it was running' if fq in started else 'before it was started'))
+                    elif fq in started:
+                        result, note = 'crashed', 'started but left no result file (kani driver ended early, rc=%s): %s' % (
+                            r.rc, ' '.join(r.out.strip().splitlines()[-3:])[-300:])
+                        lost.append((h, fq))
+                    elif started:
+                        note = 'never started (kani driver ended early, rc=%s)' % r.rc
+                        lost.append((h, fq))
+                row = {'name': h, 'result': result, 'seconds': secs}
+                if failed:
+                    row['failed_checks'] = failed
+                if note:
+                    row['note'] = note
+                if attempt:
+                    row['retried'] = True
+                rows_by[h] = row
+            todo = lost
+        with open(os.path.join(scratch, 'kani.log'), 'w') as f:  # only survives with VERIF_KEEP_SCRATCH / --keep
+            f.write(log)
+        rows = [rows_by[h] for h in harnesses if h in rows_by]
+
+        class _R:  # what the code below needs of the (last) run
+            pass
+        r = _R()
+        r.out, r.timed_out, r.rc = log, timed_out, None
         res['harnesses'] = rows
 
         compiled = bool(started) or os.path.isdir(outdir)
